@@ -7,7 +7,7 @@ from ..minimize import ddmin, shrink_each
 from ..runner import jdump
 from ..world import SEAM_KINDS, INPUT_SEAMS, OUTPUT_SEAMS
 
-RUNS = {"quick": 1000, "thorough": 40000}
+RUNS = {"quick": 1000, "thorough": 20000}
 DUP = {"quick": 32, "thorough": 256}
 WALL = {"quick": 1500, "thorough": 6 * 3600}
 RUN_TIMEOUT = {"quick": 600, "thorough": 900}
